@@ -164,16 +164,13 @@ impl EventData {
             None => return, // it's already take by selector
         };
 
-        // it's safe to remove the timer since we are running the timer_list in the same thread
+        // tell the timer function not to cancel the io. the entry can't be removed here:
+        // this is not the selector thread that consumes the timer list, and only the
+        // consumer may unlink entries, so it stays there disarmed until it expires
         #[cfg(feature = "io_timeout")]
-        self.timer.borrow_mut().take().map(|h| {
-            unsafe {
-                // tell the timer function not to cancel the io
-                // it's not always true that you can really remove the timer entry
-                h.with_mut_data(|value| value.data.event_data = std::ptr::null_mut());
-            }
-            h.remove()
-        });
+        if let Some(h) = self.timer.borrow_mut().take() {
+            unsafe { h.with_mut_data(|value| value.data.event_data = std::ptr::null_mut()) };
+        }
 
         // schedule the coroutine
         get_scheduler().schedule(co);
@@ -187,16 +184,13 @@ impl EventData {
             None => return, // it's already take by selector
         };
 
-        // it's safe to remove the timer since we are running the timer_list in the same thread
+        // tell the timer function not to cancel the io. the entry can't be removed here:
+        // this is not the selector thread that consumes the timer list, and only the
+        // consumer may unlink entries, so it stays there disarmed until it expires
         #[cfg(feature = "io_timeout")]
-        self.timer.borrow_mut().take().map(|h| {
-            unsafe {
-                // tell the timer function not to cancel the io
-                // it's not always true that you can really remove the timer entry
-                h.with_mut_data(|value| value.data.event_data = std::ptr::null_mut());
-            }
-            h.remove()
-        });
+        if let Some(h) = self.timer.borrow_mut().take() {
+            unsafe { h.with_mut_data(|value| value.data.event_data = std::ptr::null_mut()) };
+        }
 
         // run the coroutine
         run_coroutine(co);
